@@ -267,5 +267,12 @@ func (t *Trace) Excerpt(max int) string {
 	for _, p := range t.Panics {
 		fmt.Fprintf(&sb, "  PANIC %s\n", p)
 	}
+	fmt.Fprintf(&sb, "  phases %v\n", t.PhaseStart)
+	for _, n := range t.Notes {
+		if len(n) > 600 {
+			n = n[:600]
+		}
+		fmt.Fprintf(&sb, "  note %s\n", n)
+	}
 	return sb.String()
 }
